@@ -64,6 +64,30 @@ fn check_against_oracle(b: &Built, sim: &Simple, src: usize, res: &Sssp, first_o
     }
 }
 
+/// distance-only form (no paths, no target, no cutoff: the fast path) against the form that returns paths
+pub fn check_distance_only(b: &Built, rec: &Recorder, c: &mut Counters) -> u64 {
+    let mut calls = 0;
+    for src in 0..b.n {
+        calls += 2;
+        let full = guarded(|| dijkstra::single_source(&b.g, true, b.names[src], None, None, false, true));
+        let fast = guarded(|| dijkstra::single_source(&b.g, true, b.names[src], None, None, false, false));
+        let sub = format!("{}|ssd:w=true:src={}", b.case, b.names[src]);
+        let mk = |clause: &str, detail: String| Violation::new(clause, "dijkstra::single_source", sub.clone(), format!("{}\nweighted=true source={} with_paths=false first_only=false\n{detail}", b.describe(), b.names[src])).with_tags(b.tags()).with_snippet(b.snippet(&format!("    let r = graphrs::algorithms::shortest_path::dijkstra::single_source(&g, true, {:?}, None, None, false, false).unwrap();\n    // {}\n", b.names[src], detail.replace('\n', " "))));
+        match (full, fast) {
+            (Ok(Ok(a)), Ok(Ok(z))) => {
+                let (a, z) = (canon_sssp(b, &a), canon_sssp(b, &z));
+                c.inc("distance_only_comparisons");
+                if a.len() != z.len() || a.iter().any(|(k, v)| z.get(k).map_or(true, |w| w.0 != v.0)) {
+                    rec.record(mk("distance", format!("distance-only call: {}; call with paths: {}", fmt_sssp(b, &z), fmt_sssp(b, &a))));
+                }
+            }
+            (Err(pi), _) | (_, Err(pi)) => rec.record(mk("no_panic", pi.msg.clone()).with_panic(pi)),
+            (a, z) => rec.record(mk("unexpected_error", format!("with paths ok={}, distance-only ok={}", matches!(a, Ok(Ok(_))), matches!(z, Ok(Ok(_)))))),
+        }
+    }
+    calls
+}
+
 pub fn check_graph(b: &Built, rec: &Recorder, c: &mut Counters, weighted_modes: &[bool], multi_source_subsets: bool) -> u64 {
     let mut calls = 0u64;
     for &weighted in weighted_modes {
@@ -98,6 +122,32 @@ pub fn check_graph(b: &Built, rec: &Recorder, c: &mut Counters, weighted_modes: 
                         check_against_oracle(b, &sim, src, &res, first_only, positive, &mut |cl, d| rec.record(mk(cl, d)));
                         if !first_only {
                             per_source[src] = Some(res);
+                        }
+                    }
+                }
+            }
+            // the distance-only form of the same call (no paths requested): same nodes, same distances, no paths
+            if let Some(full) = &per_source[src] {
+                calls += 1;
+                let sub = format!("{}|ssd:w={}:src={}", b.case, weighted, b.names[src]);
+                let mkd = |clause: &str, detail: String| Violation::new(clause, "dijkstra::single_source", sub.clone(), format!("{}\nweighted={weighted} source={} with_paths=false first_only=false\n{detail}", b.describe(), b.names[src])).with_tags(b.tags()).with_snippet(b.snippet(&format!("    let r = graphrs::algorithms::shortest_path::dijkstra::single_source(&g, {weighted}, {:?}, None, None, false, false).unwrap();\n    // {}\n", b.names[src], detail.replace('\n', " "))));
+                match guarded(|| dijkstra::single_source(&b.g, weighted, b.names[src], None, None, false, false)) {
+                    Err(pi) => rec.record(mkd("no_panic", pi.msg.clone()).with_panic(pi)),
+                    Ok(Err(e)) => rec.record(mkd("unexpected_error", format!("Err({:?})", e.kind))),
+                    Ok(Ok(m)) => {
+                        let res = canon_sssp(b, &m);
+                        let same_nodes = res.len() == full.len() && res.keys().all(|k| full.contains_key(k));
+                        if !same_nodes {
+                            rec.record(mkd("distance_only_nodes", format!("reports {:?}, the call with paths reports {:?}", res.keys().map(|k| b.names[*k]).collect::<Vec<_>>(), full.keys().map(|k| b.names[*k]).collect::<Vec<_>>())));
+                        } else {
+                            for (k, (d, ps)) in &res {
+                                if *d != full[k].0 {
+                                    rec.record(mkd("distance", format!("distance to {} = {d}, true shortest length {}", b.names[*k], full[k].0)));
+                                }
+                                if !ps.is_empty() {
+                                    rec.record(mkd("distance_only_paths", format!("paths {ps:?} returned although none were requested")));
+                                }
+                            }
                         }
                     }
                 }
@@ -211,6 +261,11 @@ pub fn hist_small(walpha: &'static str, multi_too: bool) -> Vec<Family> {
         v.push(fam_hist(k, 3, walpha, &ORD_ONE));
     }
     v.push(fam_hist(DSL, 2, walpha, &ORD_ONE));
+    if walpha != "u" {
+        // the same histories on graphs whose specs replace / ignore duplicates (routes 5 and 6)
+        v.push(fam_hist(US, 3, walpha, &[(52, 0), (62, 1)]));
+        v.push(fam_hist(DS, 2, walpha, &[(52, 0), (62, 1)]));
+    }
     if multi_too {
         v.push(fam_hist(UM, 2, walpha, &ORD_ONE));
         v.push(fam_hist(DM, 2, walpha, &ORD_ONE));
@@ -244,7 +299,7 @@ pub fn path_families(tier: &str) -> Vec<Family> {
     // the same abstract graphs reached through other construction routes
     for k in kinds_all() {
         v.push(fam(k, 2, "w12", &ORD_ROUTES));
-        if !k.multi {
+        if !k.multi && (!k.loops || tier != "quick") {
             v.push(fam(k, 3, "w12", &ORD_ROUTES));
         }
     }
@@ -264,6 +319,12 @@ pub fn path_families(tier: &str) -> Vec<Family> {
         v.push(f);
     }
     v.push(fam(US, 3, "wf32", &ORD_ONE));
+    if tier != "quick" {
+        let mut f = fam(DS, 4, "wlev", &ORD_ONE);
+        f.min_edges = 5;
+        f.max_edges = 6;
+        v.push(f);
+    }
     if tier == "quick" {
         for n in 0..=3 {
             for k in kinds_all() {
@@ -324,6 +385,12 @@ pub fn run(tier: &str, rec: &Recorder) -> RunOutput {
     let seed = std::env::var("VERIF_SEED").ok().and_then(|s| s.parse().ok()).unwrap_or(0);
     for_each_family(&path_families(tier), |f| {
         let modes = modes_for(f);
+        if f.walpha == "wlev" {
+            // the three-level family is large: only the distance-only form against the form with paths (which the
+            // other families tie to the oracle)
+            for_each_graph(f, seed, deadline, &stats, |b, c| check_distance_only(b, rec, c));
+            return;
+        }
         for_each_graph(f, seed, deadline, &stats, |b, c| check_graph(b, rec, c, &modes, true));
     });
     {
